@@ -213,9 +213,15 @@ def gen_http(r, i, big=False):
     nl = b'\n' if r.random() < 0.2 else b'\r\n'
     interim = b''
     n_interim = r.choice([0] * 8 + [1, 2])
-    for _ in range(n_interim):
+    # every header block stays under the 32 KiB limit of the HTTP stream, but an interim block and the final block TOGETHER exceed it
+    huge = r.random() < 0.04
+    if huge:
+        n_interim = max(n_interim, 1)
+    for k_int in range(n_interim):
         code = r.choice([100, 102, 103])
         interim += b'HTTP/1.1 %d Interim' % code + nl
+        if huge and k_int == 0:
+            interim += b''.join(b'Link: </assets/style-%04d.css>; rel=preload; as=style' % j + nl for j in range(r.choice([380, 420])))
         if r.random() < 0.5:
             interim += b'Link: </s.css>; rel=preload' + nl
             if r.random() < 0.3:
@@ -245,7 +251,9 @@ def gen_http(r, i, big=False):
         if r.random() < 0.1:
             v += bytes([r.choice([0x85, 0xe9, 0xff, 0x0b, 0x0c, 0x1c])]) + b'z'
         lines.append(k.encode() + b': ' + v)
-    if big or r.random() < 0.04:
+    if huge:
+        lines.insert(r.randrange(len(lines) + 1), b'X-Big: ' + b'b' * r.choice([16000, 20000]))
+    elif big or r.random() < 0.04:
         lines.insert(r.randrange(len(lines) + 1), b'X-Big: ' + b'b' * r.choice([4000, 4090, 4200, 9000]))
     r.shuffle(lines)
     body_len = r.choice([0, 0, 1, 5, 40, 200, 400])
@@ -289,7 +297,7 @@ def gen_http(r, i, big=False):
     s = {'kind': 'http', 'url': url, 'segments': [x.hex() for x in segs],
          'stop': r.choice(['complete'] * 9 + ['no_download']),
          'truth': {'head_len': len(full_head), 'status': str(code), 'mime': None if dup_ct else ref_mime(_unfold_ct(ct)),
-                   'wire_body': wire_body.hex(), 'fail': fail, 'interim': n_interim, 'big': len(full_head) > 4096,
+                   'wire_body': wire_body.hex(), 'fail': fail, 'interim': n_interim, 'big': len(full_head) > 4096, 'huge': len(full_head) > 32770,
                    'lf_only': nl == b'\n'}}
     if r.random() < 0.15:
         s['method'] = 'POST'
@@ -965,6 +973,7 @@ def _distribution(cases, stats):
     d['http_lf_only'] = sum(1 for s in hs if s['truth']['lf_only'])
     d['http_interim'] = sum(1 for s in hs if s['truth']['interim'])
     d['http_big_header'] = sum(1 for s in hs if s['truth']['big'])
+    d['http_header_blocks_over_32k_together'] = sum(1 for s in hs if s['truth'].get('huge'))
     d['http_failed'] = sum(1 for s in hs if s['truth']['fail'])
     d['interleaved'] = sum(1 for c in cases for r in c['runs'] if _interleaved(r))
     return d
